@@ -97,6 +97,7 @@ func roundTrip(c *h.Ctx, p *path.Path, src string, docs []string, r *rand.Rand) 
 			if err != nil {
 				return nil, err
 			}
+			rtHold(c, 0, b, cs)
 			q := rtDest(s1, 0)
 			return q, q.UnmarshalText(b)
 		}},
@@ -105,6 +106,7 @@ func roundTrip(c *h.Ctx, p *path.Path, src string, docs []string, r *rand.Rand) 
 			if err != nil {
 				return nil, err
 			}
+			rtHold(c, 1, b, cs)
 			q := rtDest(s1, 1)
 			return q, q.UnmarshalBinary(b)
 		}},
@@ -145,6 +147,7 @@ func roundTrip(c *h.Ctx, p *path.Path, src string, docs []string, r *rand.Rand) 
 			c.Held(rt.clause)
 		}
 	}
+	rtAfter(c, cs)
 	// behaviour on documents (typed comparison)
 	if len(docs) > 0 && t1 == t2 {
 		return // same tree: same behaviour; spend the executions where the tree differs or on a sample
@@ -186,8 +189,40 @@ func rtDest(s string, salt int) *path.Path {
 	if (len(s)+salt)%2 == 0 {
 		return new(path.Path)
 	}
-	q := *path.MustParse(`strict $.old ? (@.path > 1 || "text" starts with "t")`)
+	if rtOrig == nil {
+		rtOrig = path.MustParse(rtOrigSrc)
+		rtOrigText = rtOrig.String()
+	}
+	q := *rtOrig // a value copy, as a caller keeping a snapshot (or appending to a slice) makes
 	return &q
+}
+
+const rtOrigSrc = `strict $.old ? (@.path > 1 || "text" starts with "t")`
+
+var (
+	rtOrig     *path.Path
+	rtOrigText string
+	// bytes handed out by an earlier MarshalText / MarshalBinary and what they said then
+	rtHeldBytes [2][]byte
+	rtHeldText  [2]string
+)
+
+// rtAfter: decoding into a copy of a Path must leave the Path it was copied
+// from alone, and bytes a Marshal call returned belong to the caller - a later
+// Marshal must not change them.
+func rtAfter(c *h.Ctx, cs h.Case) {
+	if rtOrig != nil && rtOrig.String() != rtOrigText {
+		c.Violate("marshal.text", h.F("kind", "copy-shares-tree"), fmt.Sprintf("after Scan/Unmarshal into a copy of a Path, the Path it was copied from prints %q (was %q)", rtOrig.String(), rtOrigText), cs)
+		rtOrig = nil
+	}
+}
+
+func rtHold(c *h.Ctx, which int, b []byte, cs h.Case) {
+	clause := []string{"marshal.text", "marshal.binary"}[which]
+	if rtHeldBytes[which] != nil && string(rtHeldBytes[which]) != rtHeldText[which] {
+		c.Violate(clause, h.F("kind", "returned-bytes-changed"), fmt.Sprintf("bytes returned by an earlier Marshal call read %q now, %q when they were returned", rtHeldBytes[which], rtHeldText[which]), cs)
+	}
+	rtHeldBytes[which], rtHeldText[which] = b, string(b)
 }
 
 func typedSummary(o *h.Out) string {
